@@ -259,6 +259,9 @@ pub struct World {
     pub cont_on_foreign_stack: bool,
     /// fault knob: every Ctrl-C calls `interrupt()` twice before the next `execute()`
     pub double_intr: bool,
+    /// session knob: after a break at a pending INPUT prompt `run_to_completion` resumes with
+    /// `PRINT "AGAIN: ";:CONT` instead of a bare CONT
+    pub cont_behind_print: bool,
     /// global API call sequence number
     pub seq: u64,
     pub log_hash: u64,
@@ -341,6 +344,7 @@ impl World {
             direct_frames_since_reset: false,
             cont_on_foreign_stack: false,
             double_intr: false,
+            cont_behind_print: false,
             seq: 0,
             log_hash: 0xcbf2_9ce4_8422_2325,
             log: if keep_log { Some(vec![]) } else { None },
